@@ -119,6 +119,32 @@ func (e *Engine) report(prop, tier string, seed int, us []*Unit, luaUnits []stri
 		}
 		violLines = append(violLines, line)
 	}
+	// bounded stand-ins (labelled bounded in the evidence, never counted as discharged obligations)
+	var bounded []BoundedResult
+	if !e.noReplay || e.forceBounded {
+		bounded = e.runBounded(prop, tier)
+	}
+	for _, b := range bounded {
+		if b.Passed {
+			fmt.Printf("bounded-ok       %s (%s) %s %.1fs\n", b.Name, b.Bound, b.Stats, b.WallS)
+			continue
+		}
+		res.violations++
+		path := filepath.Join(outDir, "bounded_"+sanitize(b.Name)+".json")
+		rf := replayFile{Property: prop, Obligation: "bounded/" + b.Name, Status: "bounded-check-failed", Clause: b.Covers + " — " + b.Bound,
+			Replay: b.replay, FailingInputFound: b.replay != nil && b.replay.Reproduced,
+			Explanation: "the bounded stand-in for functions outside the contracts' reach found an input on which the real code disagrees with the reference written from the property statement"}
+		writeJSON(path, rf)
+		fmt.Printf("%-16s %-80s\n", "bounded-failed", b.Name)
+		if b.replay != nil {
+			fmt.Printf("    input: %s\n", trunc(b.replay.Input, 600))
+		}
+		line := fmt.Sprintf("VIOLATION property=%s replay=%s", prop, path)
+		if !rf.FailingInputFound {
+			line += " no-failing-input-found"
+		}
+		violLines = append(violLines, line)
+	}
 	for _, m := range e.cs.Errors {
 		fmt.Println("CONTRACT ERROR:", m)
 		res.broken = true
@@ -215,7 +241,7 @@ func (e *Engine) report(prop, tier string, seed int, us []*Unit, luaUnits []stri
 		"known_findings_hit":       res.known,
 		"samples":                  samples,
 		"not_decided":              e.notDecided[prop],
-		"bounded":                  []string{},
+		"bounded":                  boundedEvidence(bounded),
 		"explanation":              "every obligation is regenerated from /repo's current source (go/packages, -tags verif) by symbolic execution of the real function bodies against the //@ contracts, then decided by an SMT portfolio; discharged == obligations means all were proved",
 	}
 	if err := writeJSON(filepath.Join(e.verif, "evidence", prop+".json"), ev); err != nil {
@@ -223,4 +249,13 @@ func (e *Engine) report(prop, tier string, seed int, us []*Unit, luaUnits []stri
 		res.broken = true
 	}
 	return res
+}
+
+func boundedEvidence(bs []BoundedResult) []any {
+	out := []any{}
+	for _, b := range bs {
+		out = append(out, map[string]any{"name": b.Name, "covers": b.Covers, "bound": b.Bound, "cmd": b.Cmd, "passed": b.Passed, "stats": b.Stats, "wall_s": b.WallS,
+			"note": "BOUNDED stand-in: executes the real code on every input within the bound and compares with the reference from the property statement; not a proof, not counted in discharged"})
+	}
+	return out
 }
